@@ -1302,9 +1302,10 @@ func ReadFields(cfg *Config, s string, n int, raw bool) []string {
 
 	if n != -1 && n > 0 && n < len(fpos) {
 		// More fields than variables: the last one gets the rest of the
-		// line as is, minus any trailing IFS whitespace.
+		// line as is, minus any trailing IFS whitespace; like Bash, that
+		// includes whitespace which was escaped.
 		hi := len(runes)
-		for hi > fpos[n-1].start && !escaped[hi-1] && cfg.ifsWhitespace(runes[hi-1]) {
+		for hi > fpos[n-1].start && cfg.ifsWhitespace(runes[hi-1]) {
 			hi--
 		}
 		fpos[n-1].end = hi
